@@ -451,7 +451,7 @@ func (tree *Rtree) searchIntersect(n *node, bb *geom.Bounds) []geom.Geom {
 // NearestNeighbor returns the closest object to the specified point.
 // Implemented per "Nearest Neighbor Queries" by Roussopoulos et al
 func (tree *Rtree) NearestNeighbor(p geom.Point) geom.Geom {
-	obj, _ := tree.nearestNeighbor(p, tree.root, math.MaxFloat64, nil)
+	obj, _ := tree.nearestNeighbor(p, tree.root, math.Inf(1), nil)
 	if obj == nil {
 		panic("rtree: nearest neighbor is nil, probably because point is outside of tree bounds")
 	}
@@ -489,7 +489,9 @@ func sortEntries(p geom.Point, entries []entry) ([]entry, []float64) {
 }
 
 func pruneEntries(p geom.Point, entries []entry, minDists []float64) []entry {
-	minMinMaxDist := math.MaxFloat64
+	// (+Inf rather than MaxFloat64: the squared distances overflow to +Inf for
+	// points more than about 1e154 away, and then nothing may be pruned.)
+	minMinMaxDist := math.Inf(1)
 	for i := range entries {
 		minMaxDist := minMaxDist(p, entries[i].bb)
 		// MINMAXDIST is never smaller than MINDIST; cancellation in its
@@ -516,7 +518,7 @@ func (tree *Rtree) nearestNeighbor(p geom.Point, n *node, d float64,
 	nearest geom.Geom) (geom.Geom, float64) {
 	if n.leaf {
 		for _, e := range n.entries {
-			dist := math.Sqrt(minDist(p, e.bb))
+			dist := boxDist(p, e.bb)
 			if dist < d {
 				d = dist
 				nearest = e.obj
@@ -540,7 +542,7 @@ func (tree *Rtree) NearestNeighbors(k int, p geom.Point) []geom.Geom {
 	dists := make([]float64, k)
 	objs := make([]geom.Geom, k)
 	for i := 0; i < k; i++ {
-		dists[i] = math.MaxFloat64
+		dists[i] = math.Inf(1)
 		objs[i] = nil
 	}
 	objs, _ = tree.nearestNeighbors(k, p, tree.root, dists, objs)
@@ -577,7 +579,7 @@ func (tree *Rtree) nearestNeighbors(k int, p geom.Point, n *node,
 	dists []float64, nearest []geom.Geom) ([]geom.Geom, []float64) {
 	if n.leaf {
 		for _, e := range n.entries {
-			dist := math.Sqrt(minDist(p, e.bb))
+			dist := boxDist(p, e.bb)
 			dists, nearest = insertNearest(k, dists, nearest, dist, e.obj)
 		}
 	} else {
@@ -586,7 +588,10 @@ func (tree *Rtree) nearestNeighbors(k int, p geom.Point, n *node,
 			// MINMAXDIST pruning only guarantees one object per branch, so it
 			// is not valid for k > 1; a branch can be skipped only when it is
 			// farther away than the current k-th best candidate.
-			if k > 0 && math.Sqrt(branchDists[i]) > dists[k-1] {
+			if k > 0 && boxDist(p, e.bb) > dists[k-1] {
+				if math.IsInf(branchDists[i], 1) {
+					continue // the squared distances overflowed: the branches are not in order
+				}
 				break
 			}
 			nearest, dists = tree.nearestNeighbors(k, p, e.child, dists, nearest)
